@@ -19,11 +19,16 @@ requests
                                  hold no attribute whose encoding depends on the AS number width
   nlx <fam> <wd> <attrs> <ann>  the three sections of an UPDATE as given (MP attributes of any family allowed),
                                  re-added by a builder of `fam` (not c4) in a four-octet session
+  nlt <fam> <wd> <ann> <attrs>  as `nl`, the message re-added TWICE by one builder (`readdTwicePdu`: the second
+                                 round extends the MP builders the first one created)
+  (nl / nl2 / nlx / nlt: a source PDU of more than 65535 octets is bad-op)
 replies
   re:  rej | panic | ok D<hex>#<sum compose_len> M<hex>#<bytes_len> B<pdu hex>
        (Derr / Merr / Berr for a route that returns an error)
-  nl:  rej | panic | err | ok w=<hex> a=<hex> o=<hex>   (NLRI octets inside MP_UNREACH / MP_REACH of
-       the built PDU, and its other attributes)
+  nl:  rej | panic | err | ok w=<hex> a=<hex> o=<hex> r=<hex> u=<hex> d=<len>.<fnv32>.<sum32>
+       (NLRI octets inside MP_UNREACH / MP_REACH of the built PDU, its other attributes, what `finish` wrote in
+       front of the NLRI of MP_REACH_NLRI / MP_UNREACH_NLRI - header, AFI/SAFI, next hop, reserved octet - and
+       a digest of the whole PDU)
 -/
 namespace Rc.Drv.C07
 open Rc Rc.Attr Rc.Reenc
@@ -133,27 +138,35 @@ def nlPdu (fi : FamInfo) (wd ann attrs : Bytes) : Bytes :=
 
 /-- the harness's `cut_built`: NLRI octets of MP_UNREACH_NLRI / MP_REACH_NLRI and the other
 attributes (re-framed as they were) of a built PDU; `none` = not of that shape -/
-def cutAttrs : Nat → Bytes → Option (Bytes × Bytes × Bytes)
-  | 0, bs => if bs.isEmpty then some ([], [], []) else none
+def cutAttrs : Nat → Bytes → Option (Bytes × Bytes × Bytes × Bytes × Bytes)
+  | 0, bs => if bs.isEmpty then some ([], [], [], [], []) else none
   | g + 1, bs =>
-    if bs.isEmpty then some ([], [], []) else
+    if bs.isEmpty then some ([], [], [], [], []) else
     match splitAttr bs with
     | none => none
     | some (fl, tc, v, r) =>
+      -- the attribute header as it was framed
+      let head : Bytes := if extBit fl then fl :: tc :: be16 v.length else [fl, tc, UInt8.ofNat v.length]
       match cutAttrs g r with
       | none => none
-      | some (w, a, o) =>
+      | some (w, a, o, mr, mu) =>
         if tc.toNat = 14 then
           match v with
           | _ :: _ :: _ :: nh :: rest =>
-            if rest.length < nh.toNat + 1 then none else some (w, rest.drop (nh.toNat + 1) ++ a, o)
+            if rest.length < nh.toNat + 1 then none
+            else some (w, rest.drop (nh.toNat + 1) ++ a, o, head ++ v.take (5 + nh.toNat) ++ mr, mu)
           | _ => none
         else if tc.toNat = 15 then
-          if v.length < 3 then none else some (v.drop 3 ++ w, a, o)
+          if v.length < 3 then none else some (v.drop 3 ++ w, a, o, mr, head ++ v.take 3 ++ mu)
         else
-          some (w, a, (if extBit fl then fl :: tc :: (be16 v.length ++ v) else fl :: tc :: UInt8.ofNat v.length :: v) ++ o)
+          some (w, a, head ++ v ++ o, mr, mu)
 
-def cutBuilt (pdu : Bytes) : Option (Bytes × Bytes × Bytes) :=
+def fnv32 (bs : Bytes) : UInt32 := bs.foldl (fun h b => (h ^^^ b.toUInt32) * 16777619) 2166136261
+def sum32 (bs : Bytes) : UInt32 := bs.foldl (fun s b => s + b.toUInt32) 0
+/-- length, FNV-1a and octet sum of the whole PDU (the harness prints the same of the real octets) -/
+def digest (bs : Bytes) : String := s!"{bs.length}.{(fnv32 bs).toNat}.{(sum32 bs).toNat}"
+
+def cutBuilt (pdu : Bytes) : Option (Bytes × Bytes × Bytes × Bytes × Bytes) :=
   match pdu.drop 19 with
   | 0 :: 0 :: x :: y :: attrs =>
     if pdu.length ≠ 23 + (x.toNat * 256 + y.toNat) then none else cutAttrs attrs.length attrs
@@ -161,8 +174,9 @@ def cutBuilt (pdu : Bytes) : Option (Bytes × Bytes × Bytes) :=
 
 /-- `four = false`: the two-octet session of the `nl2` lines (`SessionConfig::legacy()`), whose
 attributes must not depend on the AS number width (K9 is judged on the `re2w` lines) -/
-def handleReadd (four : Bool) (fi : FamInfo) (pdu : Bytes) : String :=
-  if pdu.length > 4096 then "bad-op" else
+def handleReadd (four twice : Bool) (fi : FamInfo) (pdu : Bytes) : String :=
+  -- `UpdateMessage::from_octets` has no 4096-octet rule: accepted up to what the length field can say
+  if pdu.length > 65535 then "bad-op" else
   -- `SessionConfig::modern()` / `legacy()`, plus `add_addpath_rxtx(family)` for the `a` families
   let cfg : Rc.Upd.Cfg := ⟨four, if fi.ap then [((fi.afi, fi.safi), .both)] else []⟩
   match Rc.Upd.parseUpdate cfg pdu with
@@ -170,18 +184,20 @@ def handleReadd (four : Bool) (fi : FamInfo) (pdu : Bytes) : String :=
   | .panic => "panic"
   | .ok m =>
     -- the builder is of the NLRI type of the family, with path ids in an ADD-PATH session
-    match readdPdu cfg m fi.fam fi.ap with
+    -- `nlt`: `add_announcements_from_pdu` + `add_withdrawals_from_pdu` a second time on the same builder
+    match (if twice then readdTwicePdu cfg m fi.fam fi.ap else readdPdu cfg m fi.fam fi.ap) with
     | .panic => "panic"
     | .err => "err"
     | .ok out =>
       match cutBuilt out with
-      | some (w, a, o) => s!"ok w={hexOrDash w} a={hexOrDash a} o={hexOrDash o}"
+      | some (w, a, o, mr, mu) =>
+        s!"ok w={hexOrDash w} a={hexOrDash a} o={hexOrDash o} r={hexOrDash mr} u={hexOrDash mu} d={digest out}"
       | none => s!"ok undecodable {hexOfBytes out}"
 
-def handleNl (four : Bool) (fi : FamInfo) (wd ann attrs : Bytes) : String :=
+def handleNl (four twice : Bool) (fi : FamInfo) (wd ann attrs : Bytes) : String :=
   if hasMp attrs.length attrs then "bad-op" else
   if !four && hasWidthDependent attrs.length attrs then "bad-op" else
-  handleReadd four fi (nlPdu fi wd ann attrs)
+  handleReadd four twice fi (nlPdu fi wd ann attrs)
 
 def handle (ws : List String) : String :=
   match ws with
@@ -199,15 +215,19 @@ def handle (ws : List String) : String :=
     | none => "bad-op"
   | ["nl", f, w, a, t] =>
     match famOf f, strictHex w, strictHex a, strictHex t with
-    | some fi, some wd, some ann, some attrs => handleNl true fi wd ann attrs
+    | some fi, some wd, some ann, some attrs => handleNl true false fi wd ann attrs
+    | _, _, _, _ => "bad-op"
+  | ["nlt", f, w, a, t] =>
+    match famOf f, strictHex w, strictHex a, strictHex t with
+    | some fi, some wd, some ann, some attrs => handleNl true true fi wd ann attrs
     | _, _, _, _ => "bad-op"
   | ["nlx", f, w, t, a] =>
     match famOf f, strictHex w, strictHex t, strictHex a with
-    | some fi, some wd, some attrs, some ann => if fi.conv then "bad-op" else handleReadd true fi (mkPdu wd attrs ann)
+    | some fi, some wd, some attrs, some ann => if fi.conv then "bad-op" else handleReadd true false fi (mkPdu wd attrs ann)
     | _, _, _, _ => "bad-op"
   | ["nl2", f, w, a, t] =>
     match famOf f, strictHex w, strictHex a, strictHex t with
-    | some fi, some wd, some ann, some attrs => handleNl false fi wd ann attrs
+    | some fi, some wd, some ann, some attrs => handleNl false false fi wd ann attrs
     | _, _, _, _ => "bad-op"
   | _ => "bad-op"
 
